@@ -32,6 +32,7 @@ type c13WireArg struct {
 	SlowGets   bool // the node answers reads of instance documents after 150 ms: a monitor round is always in flight
 	SlowLoad   bool // the node answers reads of checkpoint documents after 120 ms: the first persisted-seqno reports arrive while Open() is still loading
 	Rebalances int  // close / reopen cycles of the stream (stream.Rebalance()) before Close()
+	SlowOpen   bool // the node answers stream requests after 150 ms: the first persisted-seqno reports arrive while Open() is still opening streams
 }
 
 type c13WireRes struct {
@@ -162,8 +163,11 @@ func runC13Wire(a c13WireArg) *c13WireRes {
 	w.Node.SetObserveFunc(func(v uint16, reqUUID uint64, nth int) simnode.ObserveState {
 		return simnode.ObserveState{VbUUID: uint64(100 + v), PersistSeqNo: 1 << 30, CurrentSeqNo: 1 << 30}
 	})
-	if a.SlowGets || a.SlowLoad {
+	if a.SlowGets || a.SlowLoad || a.SlowOpen {
 		w.Node.SetBehaviourFunc(func(req *simnode.Request) *simnode.Behaviour {
+			if a.SlowOpen && req.Opcode == memd.CmdDcpStreamReq {
+				return simnode.Delay(150 * time.Millisecond)
+			}
 			if a.SlowGets && req.Opcode == memd.CmdGet && strings.Contains(string(req.Key), ":instance:") && !strings.HasSuffix(string(req.Key), ":all") {
 				return simnode.Delay(150 * time.Millisecond)
 			}
